@@ -233,10 +233,21 @@ def r_merge(ck: Checker) -> None:
     m0 = re.fullmatch(r"\[\*(\w+)\.terms,(\w+)\(0\)\]", tags[0]) if len(tags) == 2 else None
     m1 = re.fullmatch(r"\[\*(\w+)\.terms,(\w+)\((\w+)\)\]", tags[1]) if len(tags) == 2 else None
     tagger = m0.group(2) if m0 else "agg_ident"
+    # the loop over the further aggregates: `for i in range(1, len(aggs))` (element aggs[i]) or `for i, a in enumerate(aggs[1:], 1)`
     lp_t = enclosing_loop(func, ups[1]) if len(ups) == 2 else None
-    while lp_t is not None and not (isinstance(lp_t.iter, ast.Call) and unparse(lp_t.iter.func) == "range"):
+    idx_var, elem_txt = None, None
+    while lp_t is not None:
+        itx = unparse(lp_t.iter).replace(" ", "")
+        mr = re.fullmatch(r"range\(1,len\((\w+)\)\)", itx)
+        me = re.fullmatch(r"enumerate\((\w+)\[1:\],(?:start=)?1\)", itx)
+        if mr and isinstance(lp_t.target, ast.Name):
+            idx_var, elem_txt = lp_t.target.id, f"{mr.group(1)}[{lp_t.target.id}]"
+            break
+        if me and isinstance(lp_t.target, ast.Tuple) and len(lp_t.target.elts) == 2 and all(isinstance(e, ast.Name) for e in lp_t.target.elts):
+            idx_var, elem_txt = lp_t.target.elts[0].id, lp_t.target.elts[1].id  # type: ignore[attr-defined]
+            break
         lp_t = enclosing_loop(func, lp_t)
-    ok = m0 is not None and m1 is not None and m1.group(2) == tagger and lp_t is not None and m1.group(3) == unparse(lp_t.target)
+    ok = m0 is not None and m1 is not None and m1.group(2) == tagger and lp_t is not None and m1.group(3) == idx_var
     tdef = ck.prg.funcs.get(ck.prg.resolve_callee(func, ast.Name(tagger, ast.Load())) or "")
     if ok and tdef is not None and not isinstance(tdef.node, ast.Lambda):
         rt = [r for r in find_nodes(tdef.node, lambda n: isinstance(n, ast.Return))]
@@ -250,7 +261,7 @@ def r_merge(ck: Checker) -> None:
     fin = [c for c in attr_calls(func, "update") if kwarg(c, "function") is not None]
     ck.add("a merged aggregate is a #sum", len(fin) == 1 and unparse(kwarg(fin[0], "function")) == "AggregateFunction.Sum", func, func.node, f"`{fmt(fin[0]) if fin else None}`", "")  # type: ignore[arg-type]
     for r in find_nodes(func.node, lambda n: isinstance(n, ast.Raise)):
-        ck.guard("min/max aggregates are never added", func, r, "collector.function in (AggregateFunction.Min, AggregateFunction.Max)" if enclosing_loop(func, r) is None else "aggs[index].function in (AggregateFunction.Min, AggregateFunction.Max)", "")
+        ck.guard("min/max aggregates are never added", func, r, "collector.function in (AggregateFunction.Min, AggregateFunction.Max)" if enclosing_loop(func, r) is None else f"{elem_txt or 'aggs[index]'}.function in (AggregateFunction.Min, AggregateFunction.Max)", "")
     for c in ups:
         recv = c.func.value  # type: ignore[attr-defined]
         orgs = {st.origin.get(unparse(recv), "") for st in it.states(c)}
